@@ -12,11 +12,18 @@
 #include <stdlib.h>
 #include <unistd.h>
 #include <sys/mman.h>
+#include <sys/uio.h>
+#include <errno.h>
 
 void *__real_malloc(size_t);
 void *__real_calloc(size_t, size_t);
 void *__real_realloc(void *, size_t);
 void __real_free(void *);
+void *__real_mmap(void *, size_t, int, int, int, off_t);
+int __real_munmap(void *, size_t);
+/* the monitor's own mappings bypass the wrappers */
+#define mmap __real_mmap
+#define munmap __real_munmap
 
 #define PG 4096
 static am_event ev[AM_MAX_EVENTS];
@@ -79,7 +86,7 @@ static void *arena_alloc(size_t size, size_t align, int zero, int op)
     memset(m, 0xD7, span);                       /* garbage unless calloc */
     if (zero) memset(p, 0, size);
     b = &blk[nblk];
-    b->map = m; b->span = span + PG; b->ptr = p; b->size = size; b->live = 1; b->obj = cur_obj; b->id = nblk; b->nz_before = -1; b->nz_at_free = -1;
+    b->is_map = 0; b->map = m; b->span = span + PG; b->ptr = p; b->size = size; b->live = 1; b->obj = cur_obj; b->id = nblk; b->nz_before = -1; b->nz_at_free = -1;
     e = log_ev(op, size, p); if (e) e->block = nblk;
     ++nblk;
     return p;
@@ -105,11 +112,24 @@ int am_in_arena(const void *p, int *block, long *off)
 const am_block *am_blocks(int *n) { if (n) *n = nblk; return blk; }
 int am_live_blocks(void) { int i, k = 0; for (i = 0; i < nblk; ++i) if (blk[i].live) ++k; return k; }
 
+/* non-zero bytes in a mapping made by the library; pages that cannot be read (guard pages) are skipped without faulting */
+static long map_nonzero(const uint8_t *p, size_t n, long *first)
+{
+    static uint8_t pg[PG]; long nz = 0; size_t off;
+    if (first) *first = -1;
+    for (off = 0; off < n; off += PG) {
+        size_t len = n - off < PG ? n - off : PG, k; struct iovec l = {pg, len}, r = {(void *)(p + off), len};
+        if (process_vm_readv(getpid(), &l, 1, &r, 1, 0) != (ssize_t)len) continue;
+        for (k = 0; k < len; ++k) if (pg[k]) { if (first && *first < 0) *first = (long)(off + k); ++nz; }
+    }
+    return nz;
+}
 long am_nonzero_live(int obj)
 {
     long tot = 0; int i; size_t k;
     for (i = 0; i < nblk; ++i) if (blk[i].live && (obj < 0 || blk[i].obj == obj)) {
         long nz = 0;
+        if (blk[i].is_map) nz = map_nonzero(blk[i].ptr, blk[i].size, NULL); else
         for (k = 0; k < blk[i].size; ++k) if (blk[i].ptr[k]) ++nz;
         blk[i].nz_before = nz; tot += nz;
     }
@@ -125,7 +145,7 @@ static long slack_bad(const am_block *b)
 int am_slack_damaged(int obj, long *off)
 {
     int i;
-    for (i = 0; i < nblk; ++i) if (blk[i].live && blk[i].map && (obj < 0 || blk[i].obj == obj)) { long k = slack_bad(&blk[i]); if (k >= 0) { if (off) *off = k; return 1; } }
+    for (i = 0; i < nblk; ++i) if (blk[i].live && blk[i].map && !blk[i].is_map && (obj < 0 || blk[i].obj == obj)) { long k = slack_bad(&blk[i]); if (k >= 0) { if (off) *off = k; return 1; } }
     return 0;
 }
 static void arena_free(void *p)
@@ -209,4 +229,39 @@ void am_release_all(void)
     int i;
     for (i = 0; i < nblk; ++i) if (blk[i].map) { munmap(blk[i].map, blk[i].span); blk[i].map = NULL; }
     nblk = 0;
+}
+
+/* ---- mappings made by the library itself (mmap / munmap): logged, can be made to fail, scanned when unmapped ---- */
+#undef mmap
+#undef munmap
+static void *wrap_mmap_common(void *addr, size_t len, int prot, int flags, int fd, off_t off)
+{
+    void *p; am_block *b; am_event *e;
+    if (!monitored()) return __real_mmap(addr, len, prot, flags, fd, off);
+    ++nreq;
+    if (fail_at > 0 && nreq == fail_at) { e = log_ev(AM_MMAP, len, NULL); if (e) { e->failed_by_injection = 1; e->is_map = 1; } errno = ENOMEM; return MAP_FAILED; }
+    p = __real_mmap(addr, len, prot, flags, fd, off);
+    if (p == MAP_FAILED || nblk >= AM_MAX_BLOCKS) { e = log_ev(AM_MMAP, len, NULL); if (e) e->is_map = 1; return p; }
+    b = &blk[nblk]; memset(b, 0, sizeof(*b));
+    b->ptr = p; b->size = len; b->live = 1; b->obj = cur_obj; b->id = nblk; b->nz_before = -1; b->nz_at_free = -1; b->is_map = 1;
+    e = log_ev(AM_MMAP, len, p); if (e) { e->block = nblk; e->is_map = 1; }
+    ++nblk;
+    return p;
+}
+void *__wrap_mmap(void *addr, size_t len, int prot, int flags, int fd, off_t off) { return wrap_mmap_common(addr, len, prot, flags, fd, off); }
+void *__wrap_mmap64(void *addr, size_t len, int prot, int flags, int fd, off_t off) { return wrap_mmap_common(addr, len, prot, flags, fd, off); }
+int __wrap_munmap(void *p, size_t len)
+{
+    int i;
+    for (i = nblk - 1; i >= 0; --i) if (blk[i].is_map && blk[i].live && (uint8_t *)p >= blk[i].ptr && (uint8_t *)p < blk[i].ptr + blk[i].size) {
+        am_block *b = &blk[i]; am_event *e = log_ev(AM_FREE, len, p); long first = -1, nz = map_nonzero(p, len, &first);
+        if (e) { e->block = b->id; e->is_map = 1; e->nonzero_at_free = nz; e->nonzero_before = b->nz_before; e->first_nonzero = first; if ((uint8_t *)p != b->ptr) e->bad = AM_BAD_INTERIOR; }
+        b->nz_at_free = nz;
+        if ((uint8_t *)p == b->ptr && len >= b->size) b->live = 0;
+        else if ((uint8_t *)p == b->ptr) { b->ptr += len; b->size -= len; if (e) e->bad = AM_BAD_NONE; }     /* partial unmap from the front */
+        else if ((uint8_t *)p + len >= b->ptr + b->size) { b->size = (size_t)((uint8_t *)p - b->ptr); if (e) e->bad = AM_BAD_NONE; }   /* ... from the end */
+        return __real_munmap(p, len);
+    }
+    if (monitored()) { am_event *e = log_ev(AM_FREE, len, p); if (e) { e->is_map = 1; e->bad = AM_BAD_FOREIGN; } }
+    return __real_munmap(p, len);
 }
